@@ -3,6 +3,8 @@ package dbp
 import (
 	"bytes"
 	"fmt"
+	"github.com/tailscale/setec/audit"
+	"github.com/tailscale/setec/db"
 	"os"
 	"path/filepath"
 	"testing"
@@ -22,13 +24,21 @@ type HistoryCase struct {
 	// indices of calls during which the state directory is unavailable: a call that would write then
 	// fails, and a failed call changes nothing - whatever kind of call it is (first put of a name, ...)
 	FailSave []int `json:"fail_save,omitempty"`
+	// indices of calls before which the server is restarted (the database re-opened from its file):
+	// the sequential specification does not know about restarts - numbering, dedupe and everything
+	// else carry on as if nothing had happened
+	Reopen []int `json:"reopen,omitempty"`
+	// indices of calls during which the audit device fails: whatever such a call reports, a call that
+	// reports failure has changed nothing (the server is restarted afterwards, the writer does not recover)
+	FailAudit []int `json:"fail_audit,omitempty"`
 }
 
 func runC02(t *testing.T, hc HistoryCase) (*h.Violation, h.Info) {
 	var info h.Info
 	dir := caseDir(t)
 	defer os.RemoveAll(dir)
-	d, err := dbx.OpenDiscard(filepath.Join(dir, "db"), dbx.DummyKey())
+	sink := &flakyAudit{}
+	d, err := db.Open(filepath.Join(dir, "db"), dbx.DummyKey(), audit.New(sink))
 	if err != nil {
 		return h.V("harness", "open: %v", err), info
 	}
@@ -36,6 +46,15 @@ func runC02(t *testing.T, hc HistoryCase) (*h.Violation, h.Info) {
 	su := dbx.Super()
 	keep := &dbx.Retained{}
 	tgt := dbx.DBTarget{D: d, Keep: keep}
+	reopen := func() *h.Violation {
+		sink = &flakyAudit{}
+		d2, err := db.Open(filepath.Join(dir, "db"), dbx.DummyKey(), audit.New(sink))
+		if err != nil {
+			return h.V("harness", "restart: %v (C03 decides that)", err)
+		}
+		d, tgt = d2, dbx.DBTarget{D: d2, Keep: keep}
+		return nil
+	}
 	observer := dbx.Restricted(1, []model.Rule{{Action: []string{"info"}, Secret: []string{"a*", "dev/*"}}})
 	classes := make([]model.Class, 0, len(hc.Ops))
 	finish := func(v *h.Violation) (*h.Violation, h.Info) {
@@ -47,8 +66,48 @@ func runC02(t *testing.T, hc HistoryCase) (*h.Violation, h.Info) {
 		return v, info
 	}
 	for i, op := range hc.Ops {
+		for _, k := range hc.Reopen {
+			if k == i {
+				if v := reopen(); v != nil {
+					return finish(v)
+				}
+				info.Class("server-restarted-mid-history")
+				break
+			}
+		}
 		before := tr.M.String()
 		ver := tr.Resolve(op)
+		auditFails := false
+		for _, k := range hc.FailAudit {
+			auditFails = auditFails || k == i
+		}
+		if auditFails {
+			shadow := tr.Clone()
+			want := shadow.Expect(su.Rules, op, ver)
+			sink.fail = true
+			got := tgt.Do(su, op, ver)
+			sink.fail = false
+			info.Class("audit-device-failed-during-a-call")
+			if got.Class == model.OK {
+				// it went through (whether it may is C06's business): then it happened as the model says
+				if diff := dbx.Compare(got, want); diff != "" {
+					return finish(h.V("result-equals-model", "step %d %s with a failing audit device: %s", i, op, diff))
+				}
+				tr = shadow
+			}
+			classes = append(classes, got.Class)
+			if v := reopen(); v != nil {
+				return finish(v)
+			}
+			dump, err := dbx.Dump(d)
+			if err != nil {
+				return finish(h.V("state-consistent", "step %d %s (audit device failing, reported %s): dump after restart: %v", i, op, got, err))
+			}
+			if diff := dbx.DumpDiff(dump, tr.M); diff != "" {
+				return finish(h.V("failed-call-changes-nothing", "step %d %s reported %s while the audit device was failing, yet after a restart: %s", i, op, got, diff))
+			}
+			continue
+		}
 		outage := false
 		for _, f := range hc.FailSave {
 			if f == i && wouldSave(tr.M, op, ver) {
@@ -133,7 +192,7 @@ func runC02(t *testing.T, hc HistoryCase) (*h.Violation, h.Info) {
 
 var c02 = &h.Campaign[HistoryCase]{
 	Prop: "C02", Sub: "history",
-	Rule: "rapid: superuser histories (1-40 calls) of put/activate/delete-version/delete/get/get-version/conditional-get/info/list over 3 ordinary names plus \"\" and _internal/x, values from a small pool (re-puts of equal bytes frequent) incl. empty and nil, version selectors resolved against the model (0, active, latest, latest+1, existing[i], deleted[i], 2^32-1, absolute); result and full superuser dump compared with the map model after EVERY call; in one case of four the state directory is unavailable during some calls (a call that would write then fails and must change nothing); non-trivial = history contains delete-version->put, delete->re-create, or activate->put on one name; distinct by history",
+	Rule:  "rapid: superuser histories (1-40 calls) of put/activate/delete-version/delete/get/get-version/conditional-get/info/list over 3 ordinary names plus \"\" and _internal/x, values from a small pool (re-puts of equal bytes frequent) incl. empty and nil, version selectors resolved against the model (0, active, latest, latest+1, existing[i], deleted[i], 2^32-1, absolute); result and full superuser dump compared with the map model after EVERY call; in one case of four the state directory is unavailable during some calls (a call that would write then fails and must change nothing); non-trivial = history contains delete-version->put, delete->re-create, or activate->put on one name; distinct by history",
 	Quick: 10000, Thorough: 1500000,
 	Gen: func(rt *rapid.T) HistoryCase {
 		hc := HistoryCase{Ops: dbx.GenHistory(rt, 1, 40), Sparse: rapid.Bool().Draw(rt, "sparse")}
@@ -144,6 +203,12 @@ var c02 = &h.Campaign[HistoryCase]{
 		}
 		if rapid.IntRange(0, 3).Draw(rt, "withoutage") == 0 {
 			hc.FailSave = rapid.SliceOfN(rapid.IntRange(0, 20), 1, 4).Draw(rt, "failsave")
+		}
+		if rapid.IntRange(0, 2).Draw(rt, "withreopen") == 0 {
+			hc.Reopen = rapid.SliceOfN(rapid.IntRange(1, len(hc.Ops)), 1, 4).Draw(rt, "reopen")
+		}
+		if rapid.IntRange(0, 5).Draw(rt, "withauditfail") == 0 {
+			hc.FailAudit = rapid.SliceOfN(rapid.IntRange(0, len(hc.Ops)), 1, 3).Draw(rt, "failaudit")
 		}
 		return hc
 	},
